@@ -48,13 +48,17 @@ fn elements(parent: &Node, out: &mut Vec<Node>) {
     while let Some(x) = ch { if x.node_type() == 1 { out.push(x.clone()); elements(&x, out); } ch = x.next_sibling(); }
 }
 
+fn sx_all(vds: &[VD]) -> String { vds.iter().map(sx).collect::<Vec<_>>().join(" ") }
+
 fn exec(line: &str) -> (String, Option<String>, bool) {
     let rest = line.strip_prefix("hydrate run ").unwrap();
     let mut parts: Vec<&str> = rest.rsplitn(4, ' ').collect(); // ssr, writes, store, sexp
     parts.reverse();
     let Some(Sx::L(l)) = sx_parse(parts[0]) else { return ("bad-op".into(), None, false) };
     let vds: Vec<VD> = l[1..].iter().map(|s| rd(s).expect("bad view")).collect();
-    let store: Vec<u32> = if parts[1] == "-" { vec![] } else { parts[1].split(',').map(|x| x.parse().unwrap()).collect() };
+    let store0: Vec<u32> = if parts[1] == "-" { vec![] } else { parts[1].split(',').map(|x| x.parse().unwrap()).collect() };
+    // (writes made while the view is built, `setnow`, are part of the build: the state the page starts from)
+    let store: Vec<u32> = store_after_build(&vds, &store0);
     let writes: Vec<(usize, u32)> = if parts[2] == "-" { vec![] } else { parts[2].split(',').map(|w| { let (i, v) = w.split_once('=').unwrap(); (i.parse().unwrap(), v.parse().unwrap()) }).collect() };
     let ssr: String = if parts[3] == "e" { String::new() } else { parts[3].split('.').map(|n| char::from_u32(n.parse().unwrap()).unwrap()).collect() };
 
@@ -73,7 +77,7 @@ fn exec(line: &str) -> (String, Option<String>, bool) {
 
     let mut out = vec![];
     let mut verdict: Option<String> = None;
-    let (c2, v2, st2) = (container.clone(), vds.clone(), store.clone());
+    let (c2, v2, st2) = (container.clone(), vds.clone(), store0.clone());
     let mut sig_out: Vec<Signal<u32>> = vec![];
     let r = catch(|| {
         let so = &mut sig_out;
@@ -86,7 +90,8 @@ fn exec(line: &str) -> (String, Option<String>, bool) {
     let root = match r {
         Ok(r) => r,
         Err(m) => {
-            let cls = if vds.iter().any(|v| sx(v).contains("(keyed ")) { "[hydrate-list] " } else if vds.iter().any(|v| sx(v).contains("(show ")) { "[hydrate-show] " } else { "" };
+            let bwa = vds.iter().any(|v| if let VD::SetNow(g, _) = v { let t = sx_all(&vds); ["d", "b", "D", "B"].iter().any(|k| t.contains(&format!("({k} {g})"))) } else { false });
+            let cls = if vds.iter().any(|v| sx(v).contains("(keyed ")) { "[hydrate-list] " } else if vds.iter().any(|v| sx(v).contains("(show ")) { "[hydrate-show] " } else if bwa { "[hydrate-build-write-attr] " } else { "" };
             return ("panic".into(), Some(format!("{cls}[hydrate-panic] hydrating the output of the same view panicked: {m}")), true);
         }
     };
@@ -195,7 +200,9 @@ fn exec(line: &str) -> (String, Option<String>, bool) {
     // known-finding class: hydration of `Show` (see DESIGN.md, D12)
     let has_show = vds.iter().any(|v| sx(v).contains("(show "));
     let has_list = vds.iter().any(|v| sx(v).contains("(keyed "));
-    let verdict = verdict.map(|v| if has_list { format!("[hydrate-list] {v}") } else if has_show { format!("[hydrate-show] {v}") } else { v });
+    // known-finding class D25: a signal written while the page is built (`setnow`) that a dynamic ATTRIBUTE displays
+    let build_write_attr = vds.iter().any(|v| if let VD::SetNow(g, _) = v { let t = sx_all(&vds); ["d", "b", "D", "B"].iter().any(|k| t.contains(&format!("({k} {g})"))) } else { false });
+    let verdict = verdict.map(|v| if has_list { format!("[hydrate-list] {v}") } else if has_show { format!("[hydrate-show] {v}") } else if build_write_attr { format!("[hydrate-build-write-attr] {v}") } else { v });
     if has_nossr {
         // not modelled: judged by the oracle only
         return ("unmodelled: NoSsr".into(), verdict, true);
